@@ -1,8 +1,188 @@
 import JrsVerif.Common.J
+import JrsVerif.Model.Str
 
 namespace JrsVerif.Drv.C11
-open Lean JrsVerif.J
+open Lean JrsVerif.J JrsVerif.Str
 
-def handle (_op : String) (_j : Json) : Option Json := none
+/-- argument / result values of the string builtins -/
+inductive V where
+  | str (s : List Nat)
+  | num (n : Int)
+  | arr (xs : List V)
+  | bool (b : Bool)
+  | null
+  deriving Inhabited
+
+/-- result: value, error, or "not decided by this side" -/
+inductive R where
+  | ok (v : V)
+  | err
+  | undef (why : String)
+
+partial def parseV (j : Json) : Option V :=
+  match j.getObjVal? "s" with
+  | .ok (.arr a) => some (.str (nats a))
+  | _ =>
+    match j.getObjVal? "n" with
+    | .ok v => (v.getInt?.toOption).map V.num
+    | _ =>
+      match j.getObjVal? "arr" with
+      | .ok (.arr a) => (a.toList.mapM parseV).map V.arr
+      | _ =>
+        match j.getObjVal? "bool" with
+        | .ok (.bool b) => some (.bool b)
+        | _ => some .null
+
+partial def showV : V → Json
+  | .str s => obj [("s", ofNats s)]
+  | .num n => obj [("n", .str (toString n))]
+  | .arr xs => obj [("arr", .arr (xs.map showV).toArray)]
+  | .bool b => obj [("bool", .bool b)]
+  | .null => .str "null"
+
+def showR : R → Option Json
+  | .ok v => some (obj [("ok", showV v)])
+  | .err => some (obj [("err", toJson (1 : Nat))])
+  | .undef _ => none
+
+def strs (l : List (List Nat)) : V := .arr (l.map V.str)
+def natsV (l : List Nat) : V := .arr (l.map (fun (n : Nat) => V.num (Int.ofNat n)))
+def ofOpt (o : Option V) : R := match o with | some v => .ok v | none => .err
+
+/-- `usize` argument: integer in [0, 2^53-1] -/
+def usize? (n : Int) : Option Nat := if 0 ≤ n ∧ n ≤ 9007199254740991 then some n.toNat else none
+
+/-- `Either![usize, M1]` -/
+def limit? (n : Int) : Option (Option Nat) :=
+  if n == -1 then some none else (usize? n).map some
+
+/-- `IBytes` argument: array of integers 0..255 -/
+def bytes? (xs : List V) : Option (List Nat) :=
+  xs.mapM (fun v => match v with
+    | .num n => if 0 ≤ n ∧ n ≤ 255 then some n.toNat else none
+    | _ => none)
+
+/-- `new_trim_pattern`: a string's chars, or the single-character strings of an array -/
+def charSet? (v : V) : Option (List Nat) :=
+  match v with
+  | .str cs => some cs
+  | .arr xs => some (xs.filterMap (fun x => match x with | .str [c] => some c | _ => none))
+  | _ => none
+
+def specCall (fn : String) (a : List V) : R :=
+  match fn, a with
+  | "length", [.str s] => .ok (.num s.length)
+  | "substr", [.str s, .num f, .num l] =>
+    match usize? f, usize? l with
+    | some f, some l => .ok (.str (Spec.substr s f l))
+    | _, _ => .err
+  | "findSubstr", [.str p, .str s] => .ok (natsV (Spec.findSubstr p s))
+  | "startsWith", [.str x, .str y] => .ok (.bool (Spec.startsWith x y))
+  | "endsWith", [.str x, .str y] => .ok (.bool (Spec.endsWith x y))
+  | "split", [.str s, .str c] =>
+    if c.isEmpty then .undef "split: empty separator is outside the documented domain"
+    else .ok (strs (Spec.splitLimit s c none))
+  | "splitLimit", [.str s, .str c, .num n] =>
+    match limit? n with
+    | none => .err
+    | some lim =>
+      if c.isEmpty then .undef "split: empty separator is outside the documented domain"
+      else .ok (strs (Spec.splitLimit s c lim))
+  | "splitLimitR", [.str s, .str c, .num n] =>
+    match limit? n with
+    | none => .err
+    | some lim =>
+      if c.isEmpty then .undef "split: empty separator is outside the documented domain"
+      else .ok (strs (Spec.splitLimitR s c lim))
+  | "strReplace", [.str s, .str f, .str t] =>
+    if f.isEmpty then .err else .ok (.str (Spec.strReplace s f t))
+  | "stripChars", [.str s, cs] => ofOpt ((charSet? cs).map (fun p => .str (Spec.strip s p)))
+  | "lstripChars", [.str s, cs] => ofOpt ((charSet? cs).map (fun p => .str (Spec.lstrip s p)))
+  | "rstripChars", [.str s, cs] => ofOpt ((charSet? cs).map (fun p => .str (Spec.rstrip s p)))
+  | "trim", [.str s] => .ok (.str (Spec.strip s Spec.trimSet))
+  | "asciiUpper", [.str s] => .ok (.str (Spec.asciiUpper s))
+  | "asciiLower", [.str s] => .ok (.str (Spec.asciiLower s))
+  | "equalsIgnoreCase", [.str x, .str y] => .ok (.bool (Spec.equalsIgnoreCase x y))
+  | "stringChars", [.str s] => .ok (strs (Spec.stringChars s))
+  | "isEmpty", [.str s] => .ok (.bool s.isEmpty)
+  | "codepoint", [.str s] => ofOpt ((Model.codepoint s).map (fun c => .num c))
+  | "char", [.num n] => ofOpt ((Model.char n).map V.str)
+  | "escapeStringBash", [.str s] => .ok (.str (Spec.escapeStringBash s))
+  | "escapeStringDollars", [.str s] => .ok (.str (Spec.escapeStringDollars s))
+  | "escapeStringJson", [.str s] => .ok (.str (Spec.escapeStringJson s))
+  | "escapeStringPython", [.str s] => .ok (.str (Spec.escapeStringJson s))
+  | "escapeStringXML", [.str s] => .ok (.str (Spec.escapeStringXml s))
+  | "parseInt", [.str s] =>
+    match Spec.parseInt s with
+    | none => .err
+    | some v => if v.natAbs < 2 ^ 53 then .ok (.num v) else .undef "beyond 2^53: rounding is the model's business"
+  | "parseOctal", [.str s] =>
+    match Spec.parseNat 8 s with
+    | none => .err
+    | some v => if v < 2 ^ 53 then .ok (.num v) else .undef "beyond 2^53"
+  | "parseHex", [.str s] =>
+    match Spec.parseNat 16 s with
+    | none => .err
+    | some v => if v < 2 ^ 53 then .ok (.num v) else .undef "beyond 2^53"
+  | "encodeUTF8", [.str s] => .ok (natsV (enc s))
+  | "decodeUTF8", [.arr xs, .bool lossy] =>
+    match bytes? xs with
+    | none => .err
+    | some bs =>
+      match dec bs with
+      | some s => .ok (.str s)
+      | none => if lossy then .ok (.str (decLossy bs)) else .err
+  | "base64", [.str s] => .ok (.str (Spec.b64Enc (enc s)))
+  | "base64", [.arr xs] => ofOpt ((bytes? xs).map (fun bs => .str (Spec.b64Enc bs)))
+  | "base64DecodeBytes", [.str s] => ofOpt ((Spec.b64Dec s).map natsV)
+  | "base64Decode", [.str s] => ofOpt (((Spec.b64Dec s).bind dec).map V.str)
+  | _, _ => .err
+
+/-- functions with a separate code-shaped model; everything else has one definition only -/
+def modelCall (fn : String) (a : List V) : R :=
+  match fn, a with
+  | "substr", [.str s, .num f, .num l] =>
+    match usize? f, usize? l with
+    | some f, some l => .ok (.str (Model.substr s f l))
+    | _, _ => .err
+  | "findSubstr", [.str p, .str s] => .ok (natsV (Model.findSubstr p s))
+  | "startsWith", [.str x, .str y] => .ok (.bool (Model.startsWith x y))
+  | "stripChars", [.str s, cs] => ofOpt ((charSet? cs).map (fun p => .str (Model.strip s p)))
+  | "lstripChars", [.str s, cs] => ofOpt ((charSet? cs).map (fun p => .str (Model.lstrip s p)))
+  | "rstripChars", [.str s, cs] => ofOpt ((charSet? cs).map (fun p => .str (Model.rstrip s p)))
+  | "asciiUpper", [.str s] => ofOpt ((dec (Model.asciiUpperBytes s)).map V.str)
+  | "asciiLower", [.str s] => ofOpt ((dec (Model.asciiLowerBytes s)).map V.str)
+  | "equalsIgnoreCase", [.str x, .str y] => .ok (.bool (Model.equalsIgnoreCase x y))
+  | "parseInt", [.str s] => ofOpt ((Model.parseInt s).map V.num)
+  | "parseOctal", [.str s] => ofOpt ((Model.parseNat 8 s).map (fun v => V.num v))
+  | "parseHex", [.str s] => ofOpt ((Model.parseNat 16 s).map (fun v => V.num v))
+  | _, _ => .undef "no separate model"
+
+def handle (op : String) (j : Json) : Option Json :=
+  match op with
+  | "str.call" =>
+    match (do let fn ← str? j "fn"; let a ← arr? j "a"; let vs ← a.toList.mapM parseV; pure (fn, vs)) with
+    | none => some (bad "str.call: parse")
+    | some (fn, vs) =>
+      let s := specCall fn vs
+      let m := modelCall fn vs
+      match showR s, showR m with
+      | none, none =>
+        let why := match s with | .undef w => w | _ => "undecided"
+        some (obj [("skip", .bool true), ("_why", .str why)])
+      | some sj, none => some (obj [("spec", sj)])
+      | none, some mj => some (obj [("model", mj)])
+      | some sj, some mj => some (obj [("spec", sj), ("model", mj)])
+  | "dbg.trunc" =>
+    match (do let v ← val? j "v"; parseV v) with
+    | some (.str s) =>
+      let body := [91, 10, 32, 32, 32] ++ Spec.escapeStringJson (Model.debugTrunc s) ++ [10, 93]
+      -- one definition only: served as spec too, so that a panic counts against the implementation
+      some (obj [("spec", obj [("ok", showV (.str body))]), ("model", obj [("ok", showV (.str body))])])
+    | _ => some (bad "dbg.trunc: parse")
+  | "str.ext" =>
+    some (obj [("skip", .bool true),
+               ("_why", .str "digests / parseJson / parseYaml: compared with python hashlib / json / PyYAML by checks/props/C11.py (observation)")])
+  | _ => none
 
 end JrsVerif.Drv.C11
